@@ -18,8 +18,9 @@ class Mutant:
   *inapplicable* on this tree (reported, never a failure).  count=0 means
   "replace every occurrence (at least one)" - used for renamings."""
 
-  def __init__(self, name, file, old, new, expect='fire', rule=None, count=1, also=None):
+  def __init__(self, name, file, old, new, expect='fire', rule=None, count=1, also=None, lenient=False):
     self.name = name
+    self.lenient = lenient    # for expect='silent': "cannot decide" is an acceptable answer, a VIOLATION is not
     self.file = file          # relative to /repo
     self.old = old
     self.new = new
